@@ -39,7 +39,9 @@ def piece_bytes(x, rng):
         filler = bytes(40) if x == "get_padded" else cb.frame({"Delete": {"path": "f", "expected": H("c1")}})
         return struct.pack(">I", len(item) + len(filler)) + item + filler, False
     if x == "get_badpath":
-        return cb.frame({"Get": {"path": "../x"}}), False
+        # any refused path is the same piece to the model: short, long, long runs of multi-byte characters at both alignments
+        return cb.frame({"Get": {"path": rng.choice(["../x", "../" + "\u00e9" * 200, "/a" + "\u00e9" * 120, "a/../../" + "\u30ca" * 70,
+                                                     "../ab" + "\u30ca" * 70, "../a" + "\U0001F600" * 40, "/" + "x" * 5000])}}), False
     if x == "put_new":
         return cb.frame({"Put": {"path": "f", "expected": None, "len": len(C["c2"]), "hash": H("c2")}}) + C["c2"], False
     if x == "put_cas_c1":
@@ -54,7 +56,7 @@ def piece_bytes(x, rng):
     if x == "delete_c2":
         return cb.frame({"Delete": {"path": "f", "expected": H("c2")}}), False
     if x == "delete_badpath":
-        return cb.frame({"Delete": {"path": "a/../../b", "expected": None}}), False
+        return cb.frame({"Delete": {"path": rng.choice(["a/../../b", "../a" + "\u00e9" * 100, "/" + "\u30ca" * 50]), "expected": None}}), False
     if x == "bye":
         return cb.frame("Bye") + b"junk after bye" + cb.frame({"Put": {"path": "late", "expected": None, "len": 1, "hash": H("c1")}}) + b"x", True
     if x == "oversize_2p20p1":
